@@ -22,7 +22,7 @@ ASSUMPTIONS = [
     'appended iterable rows share one key set and contain no empty strings (tableschema reads "" as missing)',
 ]
 BUDGET = {'quick': dict(examples=1600, shards=8, seconds=70),
-          'thorough': dict(examples=40000, shards=16, seconds=1200)}
+          'thorough': dict(examples=100000, shards=16, seconds=1200)}
 
 NAMES_NO_AUTO = [n for n in gen.RES_NAMES if not re.fullmatch(r'res_\d+', n)]
 
